@@ -51,6 +51,13 @@ MISSED_FIRST = {  # the property's own check missed it before it was strengthene
     "C15-f": "C15: refinement in the stored-frames stream with interface widths that differ from the grid spacing (serial runs must not carry state from frame to frame)",
     "C15-g": "C15: nothing to refine (image without droplets, every droplet below minimal_radius, empty candidate list) for num_processes 1 / 2 / 'auto'",
     "C20-f": "C20: remove overlaps on overlap chains A-B-C against the list model (C10's verified loop)",
+    "C01-g": "C01: an overall unit of length 1e-9 .. 1e4 (located radii far below numpy's absolute tolerances)",
+    "C02-i": "C02: the second observation point `locate_droplets(field, threshold)` with default options must return the droplets of the binary image (unit of length 1e-9)",
+    "C03-h": "C03: twin-grid history (the same droplet rendered on grids that differ only in their periodic axes, in one process)",
+    "C04-h": "C04: second refinement of an already refined droplet on an image with a structured disturbance (the squared deviation must not grow)",
+    "C05-g": "C05: a quick preview call with a coarse tolerance before the analysis proper (settings must not leak from call to call)",
+    "C05-h": "C05: every threshold rule on EMULSIONS under every intensity map (images wholly below / above the unit interval, contrasts 1e-3 .. 1e3); this stream also exposed D23 (fixed in /repo d2a7f21)",
+    "C07-h": "C06/C07: vanished droplets (radius 0) listed before live ones in tracked frames",
     "C20-g": "C20: consistency requested while droplets arrive through another collection (extend / constructor with a mixed Emulsion)",
 }
 rows = []
